@@ -493,7 +493,9 @@ class SSHConfig:
         :param dict config: the currently parsed config
         :param str hostname: the hostname whose config is being looked up
         """
-        for k in config:
+        # HostName goes first: %h in the other options refers to its expanded
+        # value, wherever in the file (and thus in ``config``) it was set.
+        for k in sorted(config, key=lambda k: k != "hostname"):
             if config[k] is None:
                 continue
             tokenizer = partial(self._tokenize, config, target_hostname, k)
